@@ -16,7 +16,6 @@ import (
 
 type (
 	Locker = sync.Locker
-	Map    = sync.Map
 	Pool   = sync.Pool
 	Cond   = sync.Cond
 	Once   = sync.Once
@@ -244,3 +243,72 @@ func (w *WaitGroup) Wait() {
 func OnceFunc(f func()) func()                                 { return sync.OnceFunc(f) }
 func OnceValue[T any](f func() T) func() T                     { return sync.OnceValue(f) }
 func OnceValues[T1, T2 any](f func() (T1, T2)) func() (T1, T2) { return sync.OnceValues(f) }
+
+// Map mirrors sync.Map. Underneath it IS a sync.Map; under the scheduler every operation is a scheduling point,
+// and Range is a scheduling point before EACH visit: it walks the keys that existed when it started (in order of
+// first insertion) and reports for each the value current at the time of the visit - so a Store that lands between
+// two visits is seen by the later visit only, which is exactly the latitude sync.Map.Range documents ("does not
+// necessarily correspond to any consistent snapshot").
+type Map struct {
+	real sync.Map
+	mu   sync.Mutex
+	keys []any
+	seen map[any]struct{}
+}
+
+func (m *Map) note(key any) {
+	m.mu.Lock()
+	if m.seen == nil {
+		m.seen = map[any]struct{}{}
+	}
+	if _, ok := m.seen[key]; !ok {
+		m.seen[key] = struct{}{}
+		m.keys = append(m.keys, key)
+	}
+	m.mu.Unlock()
+}
+
+func (m *Map) Load(key any) (any, bool) { Point(m, "Map.Load"); return m.real.Load(key) }
+func (m *Map) Store(key, value any)     { Point(m, "Map.Store"); m.note(key); m.real.Store(key, value) }
+func (m *Map) Delete(key any)           { Point(m, "Map.Delete"); m.real.Delete(key) }
+func (m *Map) Clear()                   { Point(m, "Map.Clear"); m.real.Clear() }
+func (m *Map) LoadOrStore(key, value any) (any, bool) {
+	Point(m, "Map.LoadOrStore")
+	m.note(key)
+	return m.real.LoadOrStore(key, value)
+}
+func (m *Map) LoadAndDelete(key any) (any, bool) {
+	Point(m, "Map.LoadAndDelete")
+	return m.real.LoadAndDelete(key)
+}
+func (m *Map) Swap(key, value any) (any, bool) {
+	Point(m, "Map.Swap")
+	m.note(key)
+	return m.real.Swap(key, value)
+}
+func (m *Map) CompareAndSwap(key, old, new any) bool {
+	Point(m, "Map.CompareAndSwap")
+	return m.real.CompareAndSwap(key, old, new)
+}
+func (m *Map) CompareAndDelete(key, old any) bool {
+	Point(m, "Map.CompareAndDelete")
+	return m.real.CompareAndDelete(key, old)
+}
+
+func (m *Map) Range(f func(key, value any) bool) {
+	if !managed() {
+		m.real.Range(f)
+		return
+	}
+	m.mu.Lock()
+	keys := append([]any{}, m.keys...)
+	m.mu.Unlock()
+	for _, k := range keys {
+		Point(m, "Map.Range visit")
+		if v, ok := m.real.Load(k); ok {
+			if !f(k, v) {
+				return
+			}
+		}
+	}
+}
